@@ -18,6 +18,7 @@ RULE = ('Programs with non-ASCII string constants/identifiers/comments encoded w
         'api(bytes) == api(decoded text); first-line rule: out == first_line + "\\n" + out_without_preservation when the first line starts with #! and '
         'preservation is on, else out does not start with #!; CLI bytes (all --no-* flags, override on) re-parse to the same tree. Non-trivial: '
         'non-UTF-8 codec or BOM or non-LF newlines or a shebang, with at least one non-ASCII character. Distinct = sha256(bytes, preserve).')
+RULE += ' Undeclared UTF-8 files may carry a decoy declaration where the interpreter does not look (line 3, after code, inside a string).'
 ASSUMPTIONS = ['the interpreter\'s own decoder (ast.parse on bytes) is the reference for cookie/BOM/newline semantics',
                'inputs that start with a BOM may or may not get their shebang preserved (the first bytes are not #!)']
 
